@@ -1666,22 +1666,33 @@ pub fn dictionary_frames() -> Vec<Vec<u8>> {
                 let mut payload = vec![b'a'; pre];
                 payload.extend_from_slice(bad);
                 payload.extend_from_slice(suffix);
-                for first in [0x30u8, 0x32] {
-                    let mut body = Vec::new();
-                    st(&mut body, b"t");
-                    if first == 0x32 {
-                        body.extend_from_slice(&[0, 7]);
+                // … alone, and with the Correlation Data EQUAL to the payload (an echoed request): a decoder that
+                // shares one buffer between equal fields must still check the flagged one
+                for echo in [false, true] {
+                    let mut props = vec![0x01, 0x01];
+                    if echo {
+                        props.push(0x09);
+                        st(&mut props, &payload);
                     }
-                    body.extend_from_slice(&[2, 0x01, 0x01]);
-                    body.extend_from_slice(&payload);
-                    out.push(frame(first, body));
+                    for first in [0x30u8, 0x32] {
+                        let mut body = Vec::new();
+                        st(&mut body, b"t");
+                        if first == 0x32 {
+                            body.extend_from_slice(&[0, 7]);
+                        }
+                        put_varint(&mut body, props.len());
+                        body.extend_from_slice(&props);
+                        body.extend_from_slice(&payload);
+                        out.push(frame(first, body));
+                    }
+                    let mut body = vec![0, 4, b'M', b'Q', b'T', b'T', 5, 0x04, 0, 10, 0];
+                    st(&mut body, b"c");
+                    put_varint(&mut body, props.len());
+                    body.extend_from_slice(&props);
+                    st(&mut body, b"w");
+                    st(&mut body, &payload);
+                    out.push(frame(0x10, body));
                 }
-                let mut body = vec![0, 4, b'M', b'Q', b'T', b'T', 5, 0x04, 0, 10, 0];
-                st(&mut body, b"c");
-                body.extend_from_slice(&[2, 0x01, 0x01]);
-                st(&mut body, b"w");
-                st(&mut body, &payload);
-                out.push(frame(0x10, body));
             }
         }
     }
